@@ -1860,3 +1860,158 @@ func c16R10(c *Ctx, r *Report) {
 	})
 	r.Floor(rule, n, 2, "postfix paths returning the loaded value")
 }
+
+// ---- C03.R11 / C11.R8: numeric operators demand operands of one type ----------------------------------------
+
+func init() {
+	lateInits = append(lateInits, func() {
+		props["C03"].Quick = append(props["C03"].Quick, c03R11)
+		props["C11"].Quick = append(props["C11"].Quick, c03R11)
+		props["C11"].Explanation += " (R8) the type checker's clauses for arithmetic, bitwise, equality and ordering operators each report two typed numeric operands of different types — no operator compares or combines two representations as they are."
+	})
+}
+
+func c03R11(c *Ctx, r *Report) {
+	const rule = "C03.R11"
+	r.Describe(rule, "typechecker.checkBinaryExpr: the case clauses of -,*,/,% · &,|,^ · ==,!= · <,<=,>,>= each contain a report guarded by a type-equality test of the two operands (directly or through a same-package helper)")
+	fn := c.LookupFn(pkgTC, "checkBinaryExpr")
+	bagAdd := c.LookupFn("internal/diagnostics", "(*DiagnosticBag).Add")
+	if !r.Anchor(rule, fn != nil && bagAdd != nil, "typechecker.checkBinaryExpr / DiagnosticBag.Add") {
+		return
+	}
+	sameTypeReport := func(f *Fn, root ast.Node) bool {
+		finfo := f.Info()
+		found := false
+		ast.Inspect(root, func(x ast.Node) bool {
+			ifs, ok := x.(*ast.IfStmt)
+			if !ok {
+				return true
+			}
+			eq := false
+			ast.Inspect(ifs.Cond, func(y ast.Node) bool {
+				if cl, ok := y.(*ast.CallExpr); ok {
+					if sel, ok := ast.Unparen(cl.Fun).(*ast.SelectorExpr); ok && sel.Sel.Name == "Equals" {
+						eq = true
+					}
+				}
+				return true
+			})
+			if !eq {
+				return true
+			}
+			reports := func(n ast.Node) bool {
+				return nodeCallsDeep(finfo, n, bagAdd.Obj) || callsReporter(c, finfo, n, bagAdd.Obj)
+			}
+			// the report may sit in the body (negated test) or after an early return (positive test)
+			if reports(ifs.Body) {
+				found = true
+			}
+			for _, st := range ifs.Body.List {
+				if _, isRet := st.(*ast.ReturnStmt); isRet && reports(f.Decl.Body) {
+					found = true
+				}
+			}
+			return true
+		})
+		return found
+	}
+	info := fn.Info()
+	for _, spec := range []struct{ tok, what string }{
+		{"MINUS_TOKEN", "arithmetic"}, {"BIT_AND_TOKEN", "bitwise"}, {"DOUBLE_EQUAL_TOKEN", "equality"}, {"LESS_TOKEN", "ordering"},
+	} {
+		cc := clauseOf(fn, spec.tok, nil)
+		if !r.Anchor(rule, cc != nil, "checkBinaryExpr: case "+spec.tok) {
+			continue
+		}
+		ok := false
+		for _, st := range cc.Body {
+			if sameTypeReport(fn, st) {
+				ok = true
+			}
+			for _, cl := range callsIn(st, false) {
+				if hf := c.FnOf(callee(info, cl)); hf != nil && hf.Decl != nil && hf.Decl.Body != nil && hf.Obj.Pkg() == fn.Obj.Pkg() && sameTypeReport(hf, hf.Decl.Body) {
+					ok = true
+				}
+			}
+		}
+		r.Check(ok, rule, fn.Name(), spec.what+" operators report operands of two different numeric types", c.pos(cc.Pos()),
+			"the "+spec.what+" operators accept two different numeric types: the generated code applies the operator to the two representations as they are (`4294967295 as u32 == -1 as i32` holds, `200 as u8 > -56 as i16` does not)")
+	}
+}
+
+// ---- C18.R6 / C11.R9: structural struct compatibility is layout compatibility ---------------------------------
+
+func init() {
+	lateInits = append(lateInits, func() {
+		props["C18"].Quick = append(props["C18"].Quick, c18R6)
+		props["C11"].Quick = append(props["C11"].Quick, c18R6)
+		props["C18"].Explanation += " (R6) the type checker lets a struct value stand for another struct type only when the field count, the field names position by position and the field types are equal — a struct value is copied byte for byte."
+	})
+}
+
+func c18R6(c *Ctx, r *Report) {
+	const rule = "C18.R6"
+	r.Describe(rule, "typechecker.areStructsCompatible: its result is conjoined with a same-package layout test that returns false on different len(Fields), on a different field name at the same index and on a non-equal field type")
+	fn := c.LookupFn(pkgTC, "areStructsCompatible")
+	if !r.Anchor(rule, fn != nil, "typechecker.areStructsCompatible") {
+		return
+	}
+	info := fn.Info()
+	var layout *Fn
+	ast.Inspect(fn.Decl.Body, func(x ast.Node) bool {
+		ret, ok := x.(*ast.ReturnStmt)
+		if !ok || len(ret.Results) != 1 {
+			return true
+		}
+		for _, cj := range conjuncts(ret.Results[0]) {
+			if cl, ok := ast.Unparen(cj).(*ast.CallExpr); ok {
+				if hf := c.FnOf(callee(info, cl)); hf != nil && hf.Decl != nil && hf.Decl.Body != nil && len(cl.Args) == 2 {
+					layout = hf
+				}
+			}
+		}
+		return true
+	})
+	if layout == nil {
+		r.Fail(rule, fn.Name(), "struct values need the destination's layout", c.pos(fn.Decl.Pos()),
+			"areStructsCompatible matches fields by name only and accepts convertible field types: `let s := {.Y = 1 as i64, .X = 2 as i64}; let p: Point = s` copies the bytes as they are (p.X == 1), and i32 fields copied over i64 fields give garbage")
+		return
+	}
+	linfo := layout.Info()
+	lenTest, nameTest, typeTest := false, false, false
+	ast.Inspect(layout.Decl.Body, func(x ast.Node) bool {
+		ifs, ok := x.(*ast.IfStmt)
+		if !ok {
+			return true
+		}
+		retFalse := false
+		for _, st := range ifs.Body.List {
+			if ret, ok := st.(*ast.ReturnStmt); ok && len(ret.Results) == 1 {
+				if v := constOf(linfo, ret.Results[0]); v != nil && v.Kind() == constant.Bool && !constant.BoolVal(v) {
+					retFalse = true
+				}
+			}
+		}
+		if !retFalse {
+			return true
+		}
+		cs := exprStr(ifs.Cond)
+		for _, d := range disjuncts(ifs.Cond) {
+			if b, ok := isBinOp(d, token.NEQ); ok {
+				if strings.HasPrefix(exprStr(b.X), "len(") && strings.HasPrefix(exprStr(b.Y), "len(") && strings.Contains(cs, "Fields") {
+					lenTest = true
+				}
+				if strings.HasSuffix(exprStr(b.X), ".Name") && strings.HasSuffix(exprStr(b.Y), ".Name") {
+					nameTest = true
+				}
+			}
+		}
+		if strings.Contains(cs, ".Type.Equals(") && strings.Contains(cs, "!") {
+			typeTest = true
+		}
+		return true
+	})
+	r.Check(lenTest, rule, layout.Name(), "different field counts are rejected", c.pos(layout.Decl.Pos()), "a struct with extra fields is copied over a smaller one")
+	r.Check(nameTest, rule, layout.Name(), "field names are compared position by position", c.pos(layout.Decl.Pos()), "fields are matched by name only: a different declaration order swaps the values")
+	r.Check(typeTest, rule, layout.Name(), "field types must be equal", c.pos(layout.Decl.Pos()), "convertible field types are accepted although the bytes are copied unconverted")
+}
